@@ -40,8 +40,9 @@ def snap(top: Path, skip_git: bool = True) -> dict:
 
 def diff(a: dict, b: dict):
     changed = sorted(p for p in a if p in b and a[p] != b[p] and a[p][0] != "dir")
-    created = sorted(p for p in b if p not in a and b[p][0] != "dir")
-    removed = sorted(p for p in a if p not in b and a[p][0] != "dir")
+    # directories count when they appear or disappear (their metadata changes whenever an entry does: not compared)
+    created = sorted(p for p in b if p not in a)
+    removed = sorted(p for p in a if p not in b)
     return changed, created, removed
 
 
@@ -78,6 +79,10 @@ def build(d: Path) -> Path:
         "Format: https://www.debian.org/doc/packaging-manuals/copyright-format/1.0/\nUpstream-Name: p\n\n"
         "Files: docs/*\nCopyright: 2020 Doc Writer\nLicense: MIT\n")
     (root / "LICENSE").write_text("see LICENSES/\n")
+    (root / ".reuse" / "templates").mkdir()
+    (root / ".reuse" / "templates" / "house.jinja2").write_text(
+        "{% for copyright_line in copyright_lines %}\n{{ copyright_line }}\n{% endfor %}\n\n"
+        "{% for expression in spdx_expressions %}\nSPDX-License-Identifier: {{ expression }}\n{% endfor %}\n")
     (root / "docs" / "readme.md").write_text("# readme\n")
     (root / "ro.txt").write_text("read only\n")
     os.chmod(root / "ro.txt", 0o444)
